@@ -244,7 +244,12 @@ def impTcp (s : Sig) (b : Base) (hops : Int) (mtu : Nat) (uptime : Option Int) (
             flags := impFlags s b.flags, urp := impUrp s b c,
             window := win, opts := opts, payload := impPayload s b c }
 
-/-! ### which choices a run draws, and from which ranges -/
+/-! ### which choices a run draws, and from which ranges
+
+  The ranges are the *admissible* ones (every value that cannot prevent the match), which contain the
+  ranges the code draws from: the model over-approximates the code's behaviours, so a theorem for all
+  in-range choices covers every run of the code, and a change of the code that draws from a different
+  but still admissible range stays explainable. -/
 
 def optChoiceOk (s : Sig) (b : Base) (uptime : Option Int) (kind : Nat) (c : Nat × Nat) : Bool :=
   if kind == 2 then
@@ -254,18 +259,18 @@ def optChoiceOk (s : Sig) (b : Base) (uptime : Option Int) (kind : Nat) (c : Nat
       let (lo, hi) := mssBounds s
       match inRange lo hi b.mssHint with
       | some _ => true
-      | none => decide (100 ≤ (c.1 : Int) ∧ (c.1 : Int) ≤ hi)        -- `randint(100, max_mss)`
+      | none => decide (lo ≤ (c.1 : Int) ∧ (c.1 : Int) ≤ hi)         -- code: `randint(100, max_mss)`, a subset
   else if kind == 3 then
     match s.scale with
     | some _ => true
     | none =>
       if s.quirks .exws then
         (inRange 15 255 b.wsHint).isSome || decide (15 ≤ c.1 ∧ c.1 ≤ 255)   -- `randrange(15, 256)`
-      else (inRange 0 14 b.wsHint).isSome || decide (1 ≤ c.1 ∧ c.1 ≤ 13)      -- `randrange(1, 14)`
+      else (inRange 0 14 b.wsHint).isSome || decide (c.1 ≤ 14)                -- code: `randrange(1, 14)`, a subset
   else if kind == 8 then
     let ok1 :=
       s.quirks .zeroTs1 || (inRange 1 4294967295 uptime).isSome || (inRange 1 4294967295 b.ts1Hint).isSome
-        || decide (120 ≤ c.1 ∧ c.1 ≤ 3153600000)                               -- `randint(120, 100*60*60*24*365)`
+        || decide (1 ≤ c.1 ∧ c.1 ≤ 4294967295)                                 -- code: `randint(120, 100*60*60*24*365)`, a subset
     let ok2 :=
       if impTcpType s b == F_SYN then
         !s.quirks .nzTs2 || (inRange 1 4294967295 b.ts2Hint).isSome || decide (1 ≤ c.2 ∧ c.2 ≤ 4294967295)
@@ -289,7 +294,7 @@ def choicesOk (s : Sig) (b : Base) (uptime : Option Int) (c : Choices) : Bool :=
   && (!s.quirks .nzAck || b.ack != 0 || decide (1 ≤ c.ack ∧ c.ack < 4294967296))
   && (!s.quirks .nzUrg || b.urp != 0 || decide (1 ≤ c.urp ∧ c.urp < 65536))
   && (s.wtype != .mod || decide (1 ≤ c.winMul ∧ c.winMul ≤ 65535 / s.wsize))
-  && (s.payClass != some true || !b.payload.isEmpty || decide (1 ≤ c.payload.length ∧ c.payload.length ≤ 10))
+  && (s.payClass != some true || !b.payload.isEmpty || decide (1 ≤ c.payload.length ∧ c.payload.length ≤ 1000))
   && optChoicesOkGo s b uptime s.layout c.opt
 
 /-! ### the packet Scapy builds (checksum fields zero) -/
